@@ -47,6 +47,8 @@ SHAPES = {
     # text that looks dot-stuffed outside a data block is verbatim text
     'Mdot': (250, [('line', '../rel/path'), ('data', '..blk=', ['..x', 'y']), ('line', '..z'), ('line', 'OK')]),
     'Edot': (551, [('line', '..first'), ('line', '..second')]),
+    # only a line that IS '.' ends a data block; Tor dot-stuffs lines that begin with '.', nothing else
+    'Dsp': (250, [('data', 'k=', [' .', 'b', '\t.', '. ', 'c']), ('line', 'OK')]),
 }
 SEQ_SHAPES_Q = ['S', 'M1', 'MT', 'D', 'Dx', 'E', 'EM']
 SEQ_SHAPES_T = ['S', 'T', 'M1', 'M2', 'MT', 'D', 'DM', 'Dx', 'E', 'EM']
